@@ -108,7 +108,10 @@ def pipeline_level(beh, n, rng):
     body = [conc_chars(t, rng) for t in beh["body"]]
     if any("]]" in t for t in body):
         return None
-    docl = ["w%dbegin" % n] + body + ["w%dend" % n]
+    # every second case has no marker in front of the body: the body's own first line (which may be empty or begin
+    # with blanks) is then the first line of the doc text
+    shield = (n // (len(KINDS) * 3)) % 2 == 0
+    docl = (["w%dbegin" % n] if shield else []) + body + ["w%dend" % n]
     block_ind = conc_chars(beh["ind"], rng)
     if kind == "module":
         lines = ["#[[[ @module"] + [("#" if t == "" else "# " + t) for t in docl] + ["#]]"]
@@ -134,10 +137,12 @@ def pipeline_level(beh, n, rng):
     want = [ind + t for t in docl]
     plines = text.split("\n")
     # the doc lines must appear exactly once in the page, contiguously, inside the item's directive
-    starts = [k for k in range(len(plines)) if plines[k] == want[0]]
-    if len(starts) != 1:
-        return case, want, [l for l in plines if "w%d" % n in l], "first doc line appears %d times" % len(starts)
-    k = starts[0]
+    ends = [k for k in range(len(plines)) if plines[k] == want[-1]]
+    if len(ends) != 1:
+        return case, want, [l for l in plines if "w%d" % n in l], "last doc line appears %d times" % len(ends)
+    k = ends[0] - len(want) + 1
+    if k < 0:
+        return case, want, plines[:ends[0] + 1], "doc lines are not reproduced verbatim, in order and contiguously"
     got = plines[k:k + len(want)]
     norm = lambda ls: [l if l.strip() else "" for l in ls]
     if norm(got) != norm(want):
